@@ -624,19 +624,6 @@ theorem phase3F {w w2 : World} (hinv : Inv S v0 w)
       intro e; subst e
       obtain ⟨mt, hroot⟩ := hinv.v0_root
       rw [htarget] at hroot; cases hroot
-    have hnodir : ¬ v0.isDirAt k := by
-      rintro ⟨mt, h⟩; rw [htarget] at h; cases h
-    -- nothing is left below the key
-    have hbelow : ∀ j, k <+: j → j ≠ k → S.view .base w'.fs j = none := by
-      intro j hj hjk
-      have horig := hinv.v0_below hnodir j hj hjk
-      by_cases hD : D (kp k :: rest) j
-      · rw [hm.done j hD]; exact horig
-      · rw [hm.rest j hD]
-        apply Classical.byContradiction
-        intro hne
-        have hpj : PKey j := S.pkey hinv.good hne
-        exact hD ⟨hpj, Or.inl (hinv.present_new hpj hne horig)⟩
     have hvk' : S.view .backup w'.fs k = some (.file c mtb) := by rw [hm.backup]; exact hbak
     unfold restoreFileAct
     simp only [infoFor_ts hts]
@@ -659,7 +646,8 @@ theorem phase3F {w w2 : World} (hinv : Inv S v0 w)
         let replaced := match baseFi with
           | some b => !b.isRegular
           | none => false
-        BFS.whenM (!fi.isRegular || replaced) (primUnit cfg .base (.removeAll (kp k)))
+        if !fi.isRegular then primUnit cfg .base (.removeAll (kp k))
+        else BFS.whenM replaced (primUnit cfg .base (.remove (kp k)))
         copyFile cfg .base (kp k) i f : M Unit) wa
         (fun w3 r => r = .ok () → S.Chg .base (· = k) w' w3 ∧ S.view .base w3.fs k = some (restoredFile c i)) := by
       apply Sat.bind
@@ -683,51 +671,22 @@ theorem phase3F {w w2 : World} (hinv : Inv S v0 w)
       cases rc with
       | error e => intro h; cases h
       | ok cur =>
-      simp only
-      have hroom : Sat (BFS.whenM (!fi.isRegular || (match (generalizing := false) cur with
+      simp only [hfireg, Bool.not_true, Bool.false_eq_true, if_false]
+      -- whatever is in the way goes with a plain `Remove`: a call confined to the key itself
+      have hroom : Sat (BFS.whenM (match (generalizing := false) cur with
           | some b => !b.isRegular
-          | none => false)) (primUnit cfg .base (.removeAll (kp k)))) wc (fun w3 r => r = .ok () →
+          | none => false) (primUnit cfg .base (.remove (kp k)))) wc (fun w3 r => r = .ok () →
             S.Chg .base (· = k) w' w3) := by
-        cases cur with
-        | none =>
-          apply Sat.whenM
-          · intro h; simp [hfireg] at h
-          · intro _ _
-            exact Sim.Chg.of_same (S := S) (s := .base) (K := (· = k)) hm.good hsac
-        | some bi =>
-          obtain ⟨nd, hv, hbi⟩ := hsome bi rfl
-          rw [hsab.fs] at hv
-          cases nd with
-          | file c' mt' =>
-            have : bi.isRegular = true := by simp [Info.isRegular, hbi.1, Node.kind]
-            apply Sat.whenM
-            · intro h; simp [hfireg, this] at h
-            · intro _ _
-              exact Sim.Chg.of_same hm.good hsac
-          | link t mt' => exact absurd hv (S.no_link hm.good)
-          | dir mt' =>
-            apply Sat.whenM
-            · intro _
-              have hvc : S.view .base wc.fs k ≠ none := by rw [hsac.fs, hv]; simp
-              apply (sat_primUnit_exact (S := S) (s := .base) (c := .removeAll (kp k)) (K := (· = k))
-                (P := fun m' => S.view .base m' k = none) hgc
-                (fun m' r h => by
-                  obtain ⟨g, o, f'⟩ := S.removeAll_frame hgc hk hkne h
-                  obtain ⟨m'', h'', hall⟩ := S.removeAll_ok hgc hk hkne hvc
-                  rw [h] at h''; cases h''
-                  refine ⟨g, o, ?_⟩
-                  intro j hj
-                  by_cases hpre : k <+: j
-                  · rw [hall j hpre, hsac.fs, hbelow j hpre hj]
-                  · exact f' j hpre)
-                (by
-                  obtain ⟨m'', h'', hall⟩ := S.removeAll_ok hgc hk hkne hvc
-                  exact ⟨m'', h'', hall k List.prefix_rfl⟩)).mono
-              intro w3 r3 ⟨hc3, _, _⟩ _
-              exact Sim.Chg.same_left hsac hc3
-            · intro h
-              have : bi.isRegular = false := by simp [Info.isRegular, hbi.1, Node.kind]
-              simp [this] at h
+        apply Sat.whenM
+        · intro _
+          apply (sat_primUnit_chg (S := S) (s := .base) (c := .remove (kp k)) (K := (· = k)) hgc
+            (fun m' r h => by
+              obtain ⟨g, o, f'⟩ := S.remove_frame hgc hk hkne h
+              exact ⟨g, o, fun j hj => f' j hj⟩)).mono
+          intro w3 r3 hc3 _
+          exact Sim.Chg.same_left hsac hc3
+        · intro _ _
+          exact Sim.Chg.of_same (S := S) (s := .base) (K := (· = k)) hm.good hsac
       apply Sat.bind
       apply hroom.mono
       intro w3 r3 h3
